@@ -521,6 +521,16 @@ func Open(path string) (DiskStore, error) {
 	}
 	return zzOrigOpen(path)
 }
+
+// SimAbandon releases the file descriptor and the memory map of a bbolt-backed
+// store without taking any of bbolt's locks. The harness calls it when a simulated
+// run is over for stores that were never closed (tasks of a killed process are
+// parked for ever inside their transactions, so Close would block).
+func SimAbandon(ds DiskStore) {
+	if b, ok := ds.(bboltDiskStore); ok && b.bboltDB != nil {
+		b.bboltDB.SimAbandon()
+	}
+}
 `},
 	"github.com/semafind/semadb/distance.GetFloatDistanceFn": {"distance", `package distance
 
